@@ -164,7 +164,11 @@ def known_id(case, r, det=None):
             return "F10"
         return None
     # FD6 (point_to_ellipsoid absolute Newton stop) is FIXED in /repo: no routing; its replay is in corpus/C11
-    if fn == "disk_to_disk" and agrees:
+    # (disk_to_disk's contact test `|x - c_i| < r_i` sits on a knife edge for disks that touch at the rim: a 1-ulp difference
+    #  sends the model to the contact arm and the implementation to the alternating projection, or vice versa; "unclear" = the
+    #  model reproduces the implementation's result under a 2-ulp perturbation of the input.  F11's own signature below - the
+    #  returned pair is an unconverged iterate of the function's alternating projection - is then still required.)
+    if fn == "disk_to_disk" and (agrees or r.get("_model_agrees") == "unclear"):
         cls = disk_class(case)
         d, p1, p2 = c10.result_points(case, r)
         if cls == "general":
@@ -174,6 +178,8 @@ def known_id(case, r, det=None):
             if math.dist(a, b) < d - 1e-13 * L:
                 return "F11"
             return None
+        if not agrees:
+            return None           # F22 keeps the strict condition: the model reproduces the result on this very input
         if cls == "coplanar" and math.dist(case["A"]["c"], case["B"]["c"]) < case["A"]["r"] + case["B"]["r"]:
             # F22: the returned d is the norm |(c2 - r2 u) - (c1 + r1 u)| = r1 + r2 - |c1 - c2| of the special case
             if abs(d - (case["A"]["r"] + case["B"]["r"] - math.dist(case["A"]["c"], case["B"]["c"]))) <= 1e-9 * L:
